@@ -66,9 +66,13 @@ def traces():
 
 
 def seeds():
+    """every stored seeded change must turn its check red; `seeds <first-id>` starts at that seed (the run takes hours)"""
     sd = os.path.join(z.VERIF, "seeded")
     bad = 0
+    first = sys.argv[2] if len(sys.argv) > 2 else ""
     for name in sorted(os.listdir(sd)):
+        if name < first:
+            continue
         meta = json.load(open(os.path.join(sd, name, "meta.json")))
         if meta.get("live_at_head") is False:
             print("skipped (behaviour-preserving at HEAD) " + name)
@@ -85,6 +89,21 @@ def seeds():
     return 0 if bad == 0 else 1
 
 
+def benign():
+    """every stored behaviour-preserving change (benign/<id>) must leave every check quiet (exit 0; drift is allowed)"""
+    bd = os.path.join(z.VERIF, "benign")
+    bad = 0
+    for name in sorted(os.listdir(bd)):
+        p = subprocess.run([os.path.join(z.VERIF, "lib", "run_benign.sh"), name, "quick"], stdout=subprocess.PIPE, stderr=subprocess.STDOUT)
+        out = p.stdout.decode().splitlines()
+        print(("quiet  " if p.returncode == 0 else "ALARM  ") + (out[0] if out else name))
+        for l in out[1:]:
+            print("        " + l)
+        bad += p.returncode != 0
+    print("SELFTEST benign:", "ok" if bad == 0 else f"{bad} changes raised an alarm")
+    return 0 if bad == 0 else 1
+
+
 def devs():
     """Every as-built switch of the specification must have a witness in the bounded instances: with the deviation
     switched on, TLC has to find a state that violates the (unguarded) design-level invariant.  A switch without a
@@ -95,6 +114,7 @@ def devs():
     table = [
         ("MC_C02", [{"Slice": '"%s"' % sl} for sl in ("builtins", "positions", "nested", "attrs", "pairs", "toplevel", "form", "homonym")], "AgreementD",
          ["D08", "D09", "D10", "D11", "D13", "D14", "D30", "D32", "D35", "D39"]),
+        ("MC_C02", [{"Slice": '"annotated"'}], "AgreementD", ["D43"]),
         ("MC_C08", [{"MaxDepth": "1", "Kinds": "<- AllKindsX"}], "AgreementD", ["D12", "D14", "D23a", "D32"]),
         ("MC_C09", [{}], "AgreementD", ["D23a", "D23c", "D37"]),
         ("MC_C06", [{"Slice": '"int"'}, {"Slice": '"str"'}], "AgreementD", ["D20", "D21"]),
@@ -125,4 +145,4 @@ def devs():
 
 
 if __name__ == "__main__":
-    sys.exit({"traces": traces, "seeds": seeds, "devs": devs}[sys.argv[1]]())
+    sys.exit({"traces": traces, "seeds": seeds, "devs": devs, "benign": benign}[sys.argv[1]]())
